@@ -391,6 +391,7 @@ func (serviceCore *ServiceCore) SetClientAccessControls(clientID string, acls []
 }
 
 func (serviceCore *ServiceCore) GetAccessControls(clientID string) []*AccessControl {
+	verifhook.Point(serviceCore, "security.readACLs")
 	acls, ok := serviceCore.accessControls.Load(clientID)
 	if ok {
 		return acls.([]*AccessControl)
